@@ -162,6 +162,21 @@ fn ulp_towards_zero<R: Round, const B: Word>(f: &FBig<R, B>) -> FBig<R, B> {
     ulp
 }
 
+/// Half of an ulp (`ulp` must be a power of the base). If the base is odd, the half is not
+/// representable, then a number slightly below it (by less than B^-(4 * precision + 64) ulp) is returned.
+fn half_of_ulp<R: Round, const B: Word>(mut ulp: FBig<R, B>) -> FBig<R, B> {
+    if B % 2 == 0 {
+        ulp.repr.exponent -= 1;
+        ulp.repr.significand = UBig::from_word(B / 2).into();
+    } else {
+        // (B^k - 1) / 2 * B^-k
+        let k = 4 * ulp.context.precision + 64;
+        ulp.repr.exponent -= k as isize;
+        ulp.repr.significand = ((UBig::from_word(B).pow(k) - UBig::ONE) >> 1).into();
+    }
+    ulp
+}
+
 /// Test if the last digit of the significand (with full precision) is even
 fn is_last_digit_even<R: Round, const B: Word>(f: &FBig<R, B>) -> bool {
     // when the significand has less digits than the precision, it's padded with zeros
@@ -353,12 +368,8 @@ impl ErrorBounds for mode::HalfAway {
             return (FBig::ZERO, FBig::ZERO, true, true);
         }
 
-        let mut half_ulp = f.ulp();
-        half_ulp.repr.exponent -= 1;
-        half_ulp.repr.significand = UBig::from_word((B + 1) / 2).into(); // ceil division
-        let mut half_ulp_inner = ulp_towards_zero(f);
-        half_ulp_inner.repr.exponent -= 1;
-        half_ulp_inner.repr.significand = UBig::from_word((B + 1) / 2).into(); // ceil division
+        let half_ulp = half_of_ulp(f.ulp());
+        let half_ulp_inner = half_of_ulp(ulp_towards_zero(f));
 
         if f.repr.is_zero() {
             (half_ulp.clone(), half_ulp, false, false)
@@ -415,12 +426,8 @@ impl ErrorBounds for mode::HalfEven {
             return (FBig::ZERO, FBig::ZERO, true, true);
         }
 
-        let mut half_ulp = f.ulp();
-        half_ulp.repr.exponent -= 1;
-        half_ulp.repr.significand = UBig::from_word((B + 1) / 2).into(); // ceil division
-        let mut half_ulp_inner = ulp_towards_zero(f);
-        half_ulp_inner.repr.exponent -= 1;
-        half_ulp_inner.repr.significand = UBig::from_word((B + 1) / 2).into(); // ceil division
+        let half_ulp = half_of_ulp(f.ulp());
+        let half_ulp_inner = half_of_ulp(ulp_towards_zero(f));
 
         // the ties are rounded to this number only if its last digit is even
         let incl = is_last_digit_even(f);
